@@ -37,7 +37,7 @@ func init() { register("C18", runC18) }
 
 type sharedValue struct {
 	name string
-	val  any    // pointer to the shared value
+	val  any             // pointer to the shared value
 	ops  []func() string // additional read-only operations beyond the reflective accessor sweep
 }
 
